@@ -6,3 +6,171 @@ pub use super::config::verif_hooks as config;
 pub use super::matrix::verif_hooks as matrix;
 pub use super::select::verif_hooks as select;
 pub use super::source::verif_hooks as source;
+
+// ---------------------------------------------------------------- C01..C04 (np_algo_h)
+/// Public wrapper so that an external crate can hold the crate-private `SourceSnapshot`.
+#[derive(Debug, Clone, Copy)]
+pub struct SnapH(pub(in crate::algorithm::kalman) SourceSnapshot);
+
+/// Constructor from raw fields (state vector, covariance matrix, filter time, ...).
+#[allow(clippy::too_many_arguments)]
+pub fn snapshot_from_raw(
+    index: u64,
+    state: [f64; 2],
+    uncertainty: [[f64; 2]; 2],
+    time: NtpTimestamp,
+    wander: f64,
+    delay: f64,
+    period: Option<f64>,
+    source_uncertainty: NtpDuration,
+    source_delay: NtpDuration,
+    leap_indicator: NtpLeapIndicator,
+    last_update: NtpTimestamp,
+) -> SnapH {
+    SnapH(SourceSnapshot {
+        index: ClockId(index),
+        state: KalmanState {
+            state: super::matrix::Vector::new_vector(state),
+            uncertainty: super::matrix::Matrix::new(uncertainty),
+            time,
+        },
+        wander,
+        delay,
+        period,
+        source_uncertainty,
+        source_delay,
+        leap_indicator,
+        last_update,
+    })
+}
+
+impl SnapH {
+    pub fn index(&self) -> u64 {
+        self.0.index.0
+    }
+    pub fn offset(&self) -> f64 {
+        self.0.offset()
+    }
+    pub fn offset_uncertainty(&self) -> f64 {
+        self.0.offset_uncertainty()
+    }
+    pub fn delay(&self) -> f64 {
+        self.0.delay
+    }
+    pub fn period(&self) -> Option<f64> {
+        self.0.period
+    }
+    pub fn leap_indicator(&self) -> NtpLeapIndicator {
+        self.0.leap_indicator
+    }
+}
+
+/// Public wrapper around a list of crate-private snapshots (candidates / selection).
+#[derive(Debug, Clone)]
+pub struct SnapVecH(pub(in crate::algorithm::kalman) Vec<SourceSnapshot>);
+
+impl SnapVecH {
+    pub fn with_capacity(n: usize) -> Self {
+        SnapVecH(Vec::with_capacity(n))
+    }
+    pub fn push(&mut self, s: SnapH) {
+        self.0.push(s.0);
+    }
+    pub fn len(&self) -> usize {
+        self.0.len()
+    }
+    pub fn is_empty(&self) -> bool {
+        self.0.is_empty()
+    }
+    pub fn get(&self, i: usize) -> SnapH {
+        SnapH(self.0[i])
+    }
+    pub fn truncate(&mut self, n: usize) {
+        self.0.truncate(n);
+    }
+}
+
+/// Constructor of the clock controller from raw fields; the source map starts empty.
+pub fn controller_from_raw<C: NtpClock>(
+    clock: C,
+    synchronization_config: SynchronizationConfig,
+    algo_config: AlgorithmConfig,
+    freq_offset: f64,
+    timedata: TimeSnapshot,
+    desired_freq: f64,
+    in_startup: bool,
+) -> KalmanClockController<C> {
+    KalmanClockController {
+        sources: HashMap::new(),
+        clock,
+        synchronization_config,
+        algo_config,
+        freq_offset,
+        timedata,
+        desired_freq,
+        in_startup,
+    }
+}
+/// Put a source entry (snapshot, usable flag) into the controller's source map.
+pub fn controller_insert_source<C: NtpClock>(c: &mut KalmanClockController<C>, id: u64, snapshot: Option<SnapH>, usable: bool) {
+    c.sources.insert(ClockId(id), (snapshot.map(|s| s.0), usable));
+}
+pub fn controller_source<C: NtpClock>(c: &KalmanClockController<C>, id: u64) -> Option<(Option<SnapH>, bool)> {
+    c.sources.get(&ClockId(id)).map(|(s, u)| (s.map(SnapH), *u))
+}
+pub fn controller_source_count<C: NtpClock>(c: &KalmanClockController<C>) -> usize {
+    c.sources.len()
+}
+pub fn controller_clock<C: NtpClock>(c: &KalmanClockController<C>) -> &C {
+    &c.clock
+}
+pub fn controller_freq_offset<C: NtpClock>(c: &KalmanClockController<C>) -> f64 {
+    c.freq_offset
+}
+pub fn controller_desired_freq<C: NtpClock>(c: &KalmanClockController<C>) -> f64 {
+    c.desired_freq
+}
+pub fn controller_in_startup<C: NtpClock>(c: &KalmanClockController<C>) -> bool {
+    c.in_startup
+}
+pub fn controller_timedata<C: NtpClock>(c: &KalmanClockController<C>) -> TimeSnapshot {
+    c.timedata
+}
+pub fn controller_synchronization_config<C: NtpClock>(c: &KalmanClockController<C>) -> SynchronizationConfig {
+    c.synchronization_config
+}
+
+pub fn steer_offset<C: NtpClock>(c: &mut KalmanClockController<C>, change: f64, freq_delta: f64) -> InternalStateUpdate<KalmanControllerMessage> {
+    c.steer_offset(change, freq_delta)
+}
+pub fn check_offset_steer<C: NtpClock>(c: &mut KalmanClockController<C>, change: f64) {
+    c.check_offset_steer(change);
+}
+pub fn steer_frequency<C: NtpClock>(c: &mut KalmanClockController<C>, change: f64) -> InternalStateUpdate<KalmanControllerMessage> {
+    c.steer_frequency(change)
+}
+pub fn change_desired_frequency<C: NtpClock>(c: &mut KalmanClockController<C>, new_freq: f64, freq_delta: f64) -> InternalStateUpdate<KalmanControllerMessage> {
+    c.change_desired_frequency(new_freq, freq_delta)
+}
+pub fn update_clock<C: NtpClock>(c: &mut KalmanClockController<C>, time: NtpTimestamp) -> InternalStateUpdate<KalmanControllerMessage> {
+    c.update_clock(time)
+}
+pub fn source_message_from_snapshot(s: SnapH) -> KalmanSourceMessage {
+    KalmanSourceMessage { inner: s.0 }
+}
+
+/// Plain view of a controller message: `Step { steer }`.
+pub fn message_step(m: &KalmanControllerMessage) -> Option<f64> {
+    match m.inner {
+        KalmanControllerMessageInner::Step { steer } => Some(steer),
+        KalmanControllerMessageInner::FreqChange { .. } => None,
+    }
+}
+/// Plain view of a controller message: `FreqChange { steer, time }`.
+pub fn message_freq_change(m: &KalmanControllerMessage) -> Option<(f64, NtpTimestamp)> {
+    match m.inner {
+        KalmanControllerMessageInner::FreqChange { steer, time } => Some((steer, time)),
+        KalmanControllerMessageInner::Step { .. } => None,
+    }
+}
+pub use super::super::InternalStateUpdate;
